@@ -299,7 +299,16 @@ def factorize_1d(
         return codes, labels
     elif pd.api.types.is_bool_dtype(values):
         codes = np.asarray(values).view("int8")
-        labels = pd.Index([False, True], name=values.name)
+        # like every other non-categorical key the labels are the values present (False before True)
+        has_true, has_false = bool(codes.any()), not bool(codes.all())
+        if has_true and has_false:
+            labels = [False, True]
+        elif has_true:
+            codes = codes - 1
+            labels = [True]
+        else:
+            labels = [False] if len(codes) else []
+        labels = pd.Index(labels, name=values.name, dtype=bool)
         return codes, labels
     else:
         codes, uniques = pd.factorize(values, use_na_sentinel=True)
